@@ -368,4 +368,125 @@ theorem roundRat_min_normal (neg : Bool) (n d : ℕ) (hn : n ≠ 0) (hd : d ≠ 
   simp only [roundAt, roundHalfEven]
   norm_num
 
+/-! ## `roundRat` is a function of the rational value -/
+
+theorem signBit_false : signBit false = 0 := rfl
+
+theorem roundAt_sign (neg : Bool) (qc : ℕ × ℕ) (e : ℤ) :
+    roundAt neg qc e = (signBit neg + (roundAt false qc e).1, (roundAt false qc e).2) := by
+  simp only [roundAt, signBit_false, Nat.zero_add]
+  generalize (if (roundHalfEven qc.1 qc.2 == 2 ^ 53) = true then ((2 ^ 52 : ℕ), e + 1) else (roundHalfEven qc.1 qc.2, e)) = me
+  by_cases h1 : me.1 < 2 ^ 52
+  · simp only [h1, if_true]
+  · simp only [h1, if_false]
+    by_cases h2 : me.2 + 1075 ≥ 2047
+    · simp only [h2, if_true]
+    · simp only [h2, if_false, Nat.add_assoc]
+
+/-- the sign only sets the top bit -/
+theorem roundRat_sign (neg : Bool) (n d : ℕ) :
+    roundRat neg n d = (signBit neg + (roundRat false n d).1, (roundRat false n d).2) := by
+  by_cases hn : n = 0
+  · subst hn; simp [roundRat, signBit_false]
+  · by_cases hd : d = 0
+    · subst hd; simp [roundRat, signBit_false]
+    · rw [roundRat_unfold neg n d hn hd, roundRat_unfold false n d hn hd]
+      exact roundAt_sign neg _ _
+
+/-- the exponent before clamping -/
+def expPre (n d : ℕ) : ℤ :=
+  let k : ℤ := (Nat.log2 n : ℤ) - (Nat.log2 d : ℤ)
+  let e0 : ℤ := k - 52
+  let q0 := (divPow2 n d e0).1
+  if q0 ≥ 2^53 then e0 + 1 else if q0 < 2^52 then e0 - 1 else e0
+
+theorem expOf_pre (n d : ℕ) : expOf n d = if expPre n d < -1074 then -1074 else expPre n d := rfl
+
+/-- at the exponent `roundRat` picks (before clamping) the quotient has exactly 53 bits -/
+theorem expPre_spec (n d : ℕ) (hn : n ≠ 0) (hd : d ≠ 0) :
+    2 ^ 52 ≤ (divPow2 n d (expPre n d)).1 ∧ (divPow2 n d (expPre n d)).1 < 2 ^ 53 := by
+  have hdpos : 0 < d := Nat.pos_of_ne_zero hd
+  obtain ⟨lo, hi⟩ := log2_bounds n d hn hd
+  simp only [expPre]
+  generalize hk : (Nat.log2 n : ℤ) - (Nat.log2 d : ℤ) = k at lo hi ⊢
+  have hq0 := (divPow2_spec n d hdpos (k - 52)).1
+  have hp := two_zpow_pos (k - 52)
+  -- x < 2^53 · 2^(k-52), x > 2^51 · 2^(k-52)
+  have hx53 : (n : ℚ) / d < 2 ^ 53 * 2 ^ (k - 52) := by
+    have : (2 : ℚ) ^ (k + 1) = 2 ^ 53 * 2 ^ (k - 52) := by
+      rw [show k + 1 = (53 : ℤ) + (k - 52) by ring, zpow_add₀ (by norm_num)]; norm_cast
+    rw [← this]; exact hi
+  have hx51 : (2 : ℚ) ^ 51 * 2 ^ (k - 52) < (n : ℚ) / d := by
+    have : (2 : ℚ) ^ (k - 1) = 2 ^ 51 * 2 ^ (k - 52) := by
+      rw [show k - 1 = (51 : ℤ) + (k - 52) by ring, zpow_add₀ (by norm_num)]; norm_cast
+    rw [← this]; exact lo
+  have hq53 : (divPow2 n d (k - 52)).1 < 2 ^ 53 := by
+    have h1 : ((divPow2 n d (k - 52)).1 : ℚ) * 2 ^ (k - 52) < 2 ^ 53 * 2 ^ (k - 52) := lt_of_le_of_lt hq0.1 hx53
+    have := lt_of_mul_lt_mul_right h1 hp.le
+    exact_mod_cast this
+  have n53 : ¬ (divPow2 n d (k - 52)).1 ≥ 2 ^ 53 := by omega
+  simp only [n53, if_false]
+  by_cases h52 : (divPow2 n d (k - 52)).1 < 2 ^ 52
+  · simp only [h52, if_true]
+    -- one exponent lower
+    have hq1 := (divPow2_spec n d hdpos (k - 52 - 1)).1
+    have hp1 := two_zpow_pos (k - 52 - 1)
+    have hpe : (2 : ℚ) ^ (k - 52) = 2 * 2 ^ (k - 52 - 1) := by
+      rw [show k - 52 = (k - 52 - 1) + 1 by ring, two_zpow_succ]
+      simp
+    have hxlt : (n : ℚ) / d < 2 ^ 52 * 2 ^ (k - 52) := by
+      have hb : ((divPow2 n d (k - 52)).1 : ℚ) + 1 ≤ 2 ^ 52 := by exact_mod_cast h52
+      calc (n : ℚ) / d < (((divPow2 n d (k - 52)).1 : ℚ) + 1) * 2 ^ (k - 52) := hq0.2
+        _ ≤ 2 ^ 52 * 2 ^ (k - 52) := mul_le_mul_of_nonneg_right hb hp.le
+    constructor
+    · -- x > 2^51 · 2 · 2^(e0-1) = 2^52 · 2^(e0-1)
+      have h1 : (2 : ℚ) ^ 52 * 2 ^ (k - 52 - 1) < (((divPow2 n d (k - 52 - 1)).1 : ℚ) + 1) * 2 ^ (k - 52 - 1) := by
+        calc (2 : ℚ) ^ 52 * 2 ^ (k - 52 - 1) = 2 ^ 51 * (2 * 2 ^ (k - 52 - 1)) := by ring
+          _ = 2 ^ 51 * 2 ^ (k - 52) := by rw [hpe]
+          _ < (n : ℚ) / d := hx51
+          _ < _ := hq1.2
+      have := lt_of_mul_lt_mul_right h1 hp1.le
+      have h2 : (2 ^ 52 : ℕ) < (divPow2 n d (k - 52 - 1)).1 + 1 := by exact_mod_cast this
+      omega
+    · have h1 : ((divPow2 n d (k - 52 - 1)).1 : ℚ) * 2 ^ (k - 52 - 1) < 2 ^ 53 * 2 ^ (k - 52 - 1) := by
+        calc ((divPow2 n d (k - 52 - 1)).1 : ℚ) * 2 ^ (k - 52 - 1) ≤ (n : ℚ) / d := hq1.1
+          _ < 2 ^ 52 * 2 ^ (k - 52) := hxlt
+          _ = 2 ^ 52 * (2 * 2 ^ (k - 52 - 1)) := by rw [hpe]
+          _ = 2 ^ 53 * 2 ^ (k - 52 - 1) := by ring
+      have := lt_of_mul_lt_mul_right h1 hp1.le
+      exact_mod_cast this
+  · simp only [h52, if_false]
+    exact ⟨by omega, hq53⟩
+
+/-- the normal exponent is determined by the value -/
+theorem normal_exp_unique {x : ℚ} {e e' : ℤ} {q q' : ℕ} (h : IsQ x e q) (h' : IsQ x e' q')
+    (a : 2 ^ 52 ≤ q) (b : q < 2 ^ 53) (a' : 2 ^ 52 ≤ q') (b' : q' < 2 ^ 53) : e = e' := by
+  obtain ⟨l1, u1⟩ := isQ_normal_bounds h a b
+  obtain ⟨l2, u2⟩ := isQ_normal_bounds h' a' b'
+  have c1 : 52 + e < 53 + e' := zpow_two_lt (lt_of_le_of_lt l1 u2)
+  have c2 : 52 + e' < 53 + e := zpow_two_lt (lt_of_le_of_lt l2 u1)
+  omega
+
+/-- **`roundRat` depends only on the rational value** -/
+theorem roundRat_congr (neg : Bool) (n d n' d' : ℕ) (hn : n ≠ 0) (hd : d ≠ 0) (hn' : n' ≠ 0) (hd' : d' ≠ 0)
+    (hv : (n : ℚ) / d = (n' : ℚ) / d') : roundRat neg n d = roundRat neg n' d' := by
+  have hdp := Nat.pos_of_ne_zero hd
+  have hdp' := Nat.pos_of_ne_zero hd'
+  obtain ⟨a, b⟩ := expPre_spec n d hn hd
+  obtain ⟨a', b'⟩ := expPre_spec n' d' hn' hd'
+  have hq := (divPow2_spec n d hdp (expPre n d)).1
+  have hq' := (divPow2_spec n' d' hdp' (expPre n' d')).1
+  rw [← hv] at hq'
+  have he : expPre n d = expPre n' d' := normal_exp_unique hq hq' a b a' b'
+  have hE : expOf n d = expOf n' d' := by rw [expOf_pre, expOf_pre, he]
+  rw [roundRat_unfold neg n d hn hd, roundRat_unfold neg n' d' hn' hd', ← hE]
+  -- the same quotient and remainder class at the same exponent
+  obtain ⟨s1, c1⟩ := divPow2_spec n d hdp (expOf n d)
+  obtain ⟨s2, c2⟩ := divPow2_spec n' d' hdp' (expOf n d)
+  rw [← hv] at s2 c2
+  have e1 : (divPow2 n d (expOf n d)).1 = (divPow2 n' d' (expOf n d)).1 := isQ_unique s1 s2
+  rw [← e1] at c2
+  have e2 : (divPow2 n d (expOf n d)).2 = (divPow2 n' d' (expOf n d)).2 := isC_unique c1 c2
+  rw [Prod.ext e1 e2]
+
 end RJson.RoundRat
